@@ -25,6 +25,76 @@ CLAIMED = {
              "Tie and remaining assurance: the Lean models of thrift_codec's compact encoding, rmp-serde's struct-map encoding and the OTel conversion must reproduce the real reporters' output byte for byte (Datadog: equal after decoding, meta is a HashMap) on every generated batch, and independent decoders check on the real bytes that each record appears exactly once, in order, with ids/name/times/properties/events unchanged up to the stated format limits.",
         note="Partial: whole-message Thrift and msgpack decode(encode)=id theorems are not yet proved in Lean (primitives are); that half is covered by decoding the real bytes with independent decoders on every run. Trusted: Lean kernel; models of thrift_codec/rmp-serde/opentelemetry_sdk (compared, not proved); reqwest and the loopback stack; records with begin+duration >= 2^64 are excluded (no collector cycle produces them; D11).",
         design="§4 C19"),
+
+    "C01": dict(
+        technique="Lean 4: collector conservation theorem (report of a default-configuration cycle is a permutation of exactly the submitted span sets, one per token item; Flushed/KeysNodup invariants) + drain lemmas; differential fh-seq vs model incl. stepped drains and thread exit; independent python spec oracle (exactly-once, due cycle)",
+        text="Kernel-checked for every collector state and every drained batch: C01_cycle_reports_everything_once (nothing drained is held back, duplicated or invented; the stale path for late spans gives the same result), with the invariants it needs proved preserved and initially true. Drain: C08_drain_batch / C08_drain_removes_dead. "
+             "Tie: programs with 1-3 logical threads (real OS threads, real TLS destructors), hand-off of spans between threads, thread exit, cycles at every position (whole, or stepped through the verif hook points incl. the empty-pop/abandoned-check window), run against the real crate and the Lean model; an independent specification checks that every finished sampled span is delivered exactly once, in the report of the first cycle after it finished.",
+        note="Partial: the composition 'every accepted command is drained exactly once' over all interleavings of ring pushes and pops is proved at the channel level in C09's theorems, not yet as one end-to-end theorem over `run`; the wall-clock bound (one report interval) is outside the model. Trusted: rtrb as a sequentially consistent FIFO; python spec.",
+        design="§4 C01"),
+    "C02": dict(
+        technique="Lean 4: id generator lemmas (non-zero, distinct in a thread for <2^32 draws, distinct across prefixes), token lemmas, collector stamping lemma (postprocess_core / C02_collection_stamps); differential fh-seq vs model; python spec oracle comparing every delivered (trace, parent) with the parent at creation",
+        text="Kernel-checked: C02_nth_id, C02_id_nonzero, C02_ids_distinct_in_thread, C02_ids_distinct_across_threads; C02_issueToken, C02_childN_token, C02_currentToken_parent, C02_startSpan, C02_finishSpan_restores (with the frame theorem C10 this is 'innermost open local span'); C02_postprocess_cores + C02_collection_stamps (for every batch and collector state each record carries its token item's trace id and the raw or token parent; mounting never changes ids/parents). "
+             "Tie: generated programs (multi-parent spans across traces, nested scopes with open local spans, spans finished on any thread, cycles anywhere) on the real crate vs the model; oracle with unique span names checks trace id, parent id, id uniqueness of every delivered record.",
+        note="Assumes fewer than 2^32 ids per thread and distinct random thread prefixes (D12, environmental). The end-to-end statement over whole programs is the composition of the three proved parts; that composition is validated by the spec oracle, not stated as one Lean theorem.",
+        design="§4 C02"),
+    "C03": dict(
+        technique="Lean 4: exact characterisation of a cancelable cycle's report (cancelable_cycle_records / commitGroups) + per-id buffering lemma; differential fh-seq vs model; python spec oracle (nothing before commit, single report, completeness)",
+        text="Kernel-checked for every collector state and batch: C03_report_is_emitted (report = buffered span sets of the ids committed in this batch), C03_only_at_commit, C03_no_commit_no_records, C03_single_report (each id once, not retained afterwards), C03_whole (emitted group = everything buffered before ++ everything routed in this batch, in order), C03_held_accumulates. "
+             "Tie: cancelable programs with children finishing on other threads before the root, cycles between every pair of events; oracle checks per trace: no record before the root's commit, all earlier-finished spans in that one report, nothing afterwards.",
+        note="Partial: completeness across threads needs the submit to be drained no later than the commit (consistent cut); the harness serialises whole cycles so it holds there; at finer granularity it is open finding D4 (not fixed: needs a two-pass drain).",
+        design="§4 C03"),
+    "C04": dict(
+        technique="Lean 4: drop-before-submit-before-commit lemmas, default-configuration no-op theorem (C04_noop_default_cycle); differential fh-seq vs model; python spec oracle",
+        text="Kernel-checked: C04_dropped_not_emitted (a consumed drop suppresses the id in that cycle even with the commit in the same batch, and releases it), C04_late_submits_discarded, C04_others_unaffected, C04_noop_default / C04_noop_default_cycle (D9 fix: in the default configuration removing all drop commands from a batch changes nothing). "
+             "Tie: programs cancelling roots at arbitrary points in both configurations, multi-parent spans shared with non-cancelled traces; oracle checks nothing of a cancelled trace is ever delivered, every other trace exactly as specified, and that cancel() without cancelable(true) changes nothing (attachments parked before the cancel survive).",
+        note="Partial: 'once cancel() has been called' needs the drop to be drained no later than the commit: same thread by FIFO of forced commands (C09, D2 fix); open findings D3 (parked drop lost when a thread exits with a full queue) and D4 (start drained after the drop re-creates the entry).",
+        design="§4 C04"),
+    "C05": dict(
+        technique="Lean 4: flag-copy lemmas, submit filter theorem, unsampled-root theorem, scope any-sampled lemma, collector trace-id provenance; differential fh-seq vs model; python spec oracle",
+        text="Kernel-checked: C05_issue_copies_flag, C05_scope_copies_flag, C05_scope_sampled_any, C05_unsampled_scope_inert, C05_unsampled_root (no start command, reserved collect id), C05_submit_filters / C05_filter_sampled_only / C05_all_unsampled_silent, C05_ctx_flag, C05_records_only_for_submitted. "
+             "Tie: programs mixing sampled and unsampled roots with descendants through every propagation path and mixed parent sets; oracle: a delivered record must belong to a sampled token item of the program, contexts carry the root's flag.",
+        note="The whole-program statement (no record whose trace id is not that of a sampled root) is the composition of the proved parts via the token-provenance invariant, which is validated by the oracle rather than proved as one theorem.",
+        design="§4 C05"),
+    "C06": dict(
+        technique="Lean 4: parking/mounting theorems (C06_park_order, C06_mount_exact under DistinctIds, C06_apply_items, D10 witness); differential fh-seq vs model; python spec oracle on properties/events of every record; known finding D10 replayed",
+        text="Kernel-checked for every record list, parked map and string content: parking keeps per-target arrival order and does not disturb other targets; mounting gives each record exactly the items parked under its id, in order, after its own, removes them, and leaves other ids' items untouched (under DistinctIds); strings are only moved. C06_D10_witness shows the open finding. "
+             "Tie: attachments through every route (creation, span handle from any thread, local parent), arbitrary UTF-8 keys/values/names, cycles between attachment and finish, both configurations.",
+        note="Open finding D10 (KNOWN_FINDINGS.txt): a span set delivered twice into one trace. Partial: cross-thread attachments rely on the consistent cut (D4).",
+        design="§4 C06"),
+    "C07": dict(
+        technique="Lean 4: assertion-validity theorems derived from the frame invariant (C07_local_drop_asserts, C07_scope_drop_asserts), totality/limit theorems for the repaired paths (D6, D7, D8), bounded send; implementation run under catch_unwind + deadline on wild call sequences incl. TLS-teardown calls, 4100 nested scopes, 10245 local spans, full ring",
+        text="Kernel-checked: at every guard drop of a well-nested program the handle is in range, epochs agree, next_parent_id is the span being closed, the scope token is present (so no debug_assert or index panic on those paths); current_local_parent() is total; the scope/queue limits yield no-op guards; closures run outside the stack borrow; send/force_send push at most pending+1 times. "
+             "Tie: every generated call sequence (incl. re-entrant closures, no reporter, no-op/unsampled spans, empty parent sets, calls from thread-local destructors) runs on a debug build under catch_unwind with a per-call deadline; corpus holds the D6/D7/D8 witnesses (panic on the unfixed code, confirmed).",
+        note="Partial: blocking in allocator/OS/parking_lot and lock ordering are not expressible in the functional model (source-level argument in DESIGN.md).",
+        design="§4 C07"),
+    "C08": dict(
+        technique="Lean 4: exact retained-key-set theorem for a cycle and its corollaries over batch histories; drain lemmas for receivers; differential incl. verif::collector_stats(); python oracle on final stats",
+        text="Kernel-checked for every state/batch/history: C08_retained_ids (retained = (old ∪ started) \\ committed \\ dropped-when-cancelable), C08_commit_releases, C08_drop_releases, C08_only_started, C08_history; C08_drain_removes_dead / C08_drain_batch for receivers of exited threads. "
+             "Tie: collector_stats() (active ids with buffered/parked counts, registered receivers) compared with the model after every program and checked against the open-trace / live-thread count of the specification.",
+        note="Open finding D4 (a start drained after its commit is never removed; example at the end of Props/C08.lean) is outside what whole-cycle scheduling reaches; D3 similarly.",
+        design="§4 C08"),
+    "C10": dict(
+        technique="Lean 4: frame theorem by mutual structural induction over well-nested block programs (C10_frame), thread isolation (exec_th_other), inertness; differential fh-seq vs model with ctxLocal probes around every scope; spec oracle",
+        text="Kernel-checked: C10_frame / C10_frame_restored — for every well-nested program of a thread (scopes, local spans, collectors to any depth, any other operations incl. re-entrant closures, cycles and other threads' operations in between) the thread's frame (open scopes, tokens, sampling, innermost open local span per scope) and guard stack are exactly restored; C10_observations_of_frame; C10_other_threads; C10_inert; C10_good_initially. "
+             "Tie: probes of current_local_parent() before/after scopes and child/local spans created afterwards, compared with the model and with the independent specification.",
+        note="Hypothesis Good (non-zero thread prefix, hence non-zero ids) holds initially and is preserved; observations must not be bad-op (operations refer to existing variables).",
+        design="§4 C10"),
+    "C11": dict(
+        technique="Lean 4: from_span / current_local_parent characterisation theorems, root-token theorem, collector stamping, traceparent round trip (C12); differential fh-seq vs model; spec oracle on every extracted context",
+        text="Kernel-checked: C11_from_span, C11_from_noop, C11_local (incl. None for empty token, D6 fix), C11_root_token, C11_record_of_item, C11_via_traceparent. Tie: contexts extracted at every program point compared with model and specification (trace id, span id of the named span, sampled flag).",
+        note="The link 'root created from an extracted context is delivered under that span' is the composition C11_root_token + C11_record_of_item; remote children built from *observed* contexts are not yet generated dynamically by the harness.",
+        design="§4 C11"),
+    "C16": dict(
+        technique="Lean 4: inertness/laziness theorems for non-recording spans and empty local context, stateless disabled model; differential: the same programs on the real crate built with and without `enable` (fh-seq / fh-off) vs the two models; closure-invocation oracle; /proc thread count",
+        text="Kernel-checked: C16_*_noop family (no closure call, state unchanged / SameWire), C16_child_of_noop, C16_root_before_reporter, C16_scope_noop, C16_local_inert, C16_disabled. Tie: every program also runs against fastrace compiled without the enable feature: every answer must be the no-op answer, no closure runs, no fastrace thread exists, the reporter is never called.",
+        note="Event::with_properties evaluates eagerly when enabled (closure passed to an Event, not to a span).",
+        design="§4 C16"),
+    "C17": dict(
+        technique="Lean 4: to_span_records = postprocess of the same set; copies identical up to trace/root parent; open spans closed at collection time; differential + copy-comparison oracle; known finding D10",
+        text="Kernel-checked: C17_to_records_is_postprocess, C17_copies_identical, C17_parents, C17_open_span_closed_at_collect. Tie: random forests captured by LocalCollector, pushed to several parents across traces and converted with to_span_records; copies compared id-by-id.",
+        note="Open finding D10 when two of the N parents share a trace. Absolute times use different anchors (durations compared with tolerance).",
+        design="§4 C17"),
 }
 
 REASON_PENDING = "not claimed yet in this revision: model/harness slice for this property is still being built (see DESIGN.md §6 work order)"
@@ -68,7 +138,7 @@ def main():
     json.dump(m, open(os.path.join(VERIF, "MANIFEST.json"), "w"), indent=1)
 
 
-HOOK_COMMITS = []
+HOOK_COMMITS = ["64597a6 verif hooks: cfg(fastrace_verif) hook points in spsc and handle_commands, run_collector_cycle, collector_stats, touch_sender"]
 NA = {}
 
 if __name__ == "__main__":
